@@ -79,7 +79,7 @@ CHECKS = {
    note="buffer = disk in this check (C12 covers the difference); idle = all spawned tasks ended + barrier request",
    technique="stateful property-based testing against a from-scratch oracle"),
  "C12": dict(cat="exploration", design="§5 C12",
-   text="Exhaustive enumeration of all sessions of up to 4 (thorough 6) open/change/close/save events, each with the included document on disk, never saved, and including the root back (include cycle through every edited document), over a root and an included document whose disk and buffer texts differ observably, compared after every step with a reference session model (disk overlaid by open buffers, root = last touched).",
+   text="Exhaustive enumeration of all sessions of up to 4 (thorough 5) open/change/close/save events and workspace-leaving events (an unrelated third document becomes root; the root drops its include), each with the included document on disk, never saved, and including the root back (include cycle through every edited document), over a root and an included document whose disk and buffer texts differ observably, compared after every step with a reference session model (disk overlaid by open buffers, root = last touched).",
    note="a close triggers no analysis; its effect (disk text is the truth again) is checked at the next analysed step",
    technique="exhaustive small-scope enumeration of sessions against a reference model"),
  "C04": dict(cat="exploration", design="§5 C04",
